@@ -194,6 +194,7 @@ def run(ctx):
     # 3. realistic and unicode ids
     pool = ['HP:1', 'HP:10', 'HP:2', 'HP:02', 'MP:1', 'A_B:1', 'A:B_1', 'HP_3', 'HPX:1', 'HP:', ':HP', 'owl:Thing',
             'owl:Thin', 'owl:Thinh', 'ZZ:9', 'a:1', 'HP:0000118', 'HP_0000118', 'SNOMEDCT_US:128613002', 'NCIT_C3117',
+            'hp:1', 'Hp:1', 'hP:1', 'Orpha:558', 'ORPHA:558', 'orpha:558', 'ORPHA:9', 'ORPHA:10', 'ORPHA:1a', 'X:9', 'X:10', 'X:100', 'X:99',
             'HP::1', 'HP:_1', '_', ':', '__', '::', 'é:1', 'e:é', '\U0001F600:1', 'z:\U0001F600', '\uffff:1', '\U00010000:1']
     for _ in range(300 if thorough else 100):
         ln = rng.randrange(1, 8)
@@ -205,7 +206,7 @@ def run(ctx):
     uspecs = [(s, parsed_spec(s), c) for s in pool for c in 'DS']
     m = len(uspecs)
     pairs = [(a, b) for a in range(m) for b in range(m)] if thorough else \
-        [(rng.randrange(m), rng.randrange(m)) for _ in range(60000)]
+        [(rng.randrange(m), rng.randrange(m)) for _ in range(60000)] + [(a, b) for a in range(2 * 45) for b in range(2 * 45)]
     check_pairs(ctx, uspecs, pairs, 'cmp.unicode+realistic')
     # 4. sorting / bisect over random subsets
     sorts = []
